@@ -447,6 +447,48 @@ def r7d(fb, rep):
     rep.floor(R, "completion-ordered streams in the pipeline", n, 1)
 
 
+def r7e(fb, rep):
+    """a module name resolves to its *current* source file, not to whatever was registered first under that name"""
+    R = "R7e"
+    rep.rule(R, "name -> source file resolution goes through the current index (State.index_map), never through a first-match search of the code map")
+    target = "gluon_base::source::CodeMap::find_file"
+    if fb.body(target) is None:
+        rep.anchor_lost(R, target)
+        return
+    n = 0
+    for b in fb.bodies.values():
+        if b.crate.name not in CRATES:
+            continue
+        for c in b.calls():
+            if c.res == target:
+                n += 1
+                rep.violation(R, "first-match-file-lookup|%s" % (b.get("root") or b.id), "%s looks a source file up with CodeMap::find_file, which returns the *oldest* file registered "
+                              "under the name: after sources A, B, A under one name the spans of the third compilation resolve against the wrong file" % b.id, c.where())
+    ST = "gluon::query::State::"
+    ok_src = ("gluon::query::State::get_filemap", "gluon_base::source::CodeMap::add_filemap", "gluon_base::source::CodeMap::update",
+              "gluon::query::State::add_filemap", "gluon::query::State::get_or_insert_filemap")
+    m = 0
+    for name in ("add_filemap", "get_or_insert_filemap", "update_filemap"):
+        b = fb.body(ST + name)
+        if b is None:
+            rep.anchor_lost(R, ST + name)
+            continue
+        m += 1
+        srcs = flow.sources(b, 0, depth=16)
+        makers = {x[1] for x in srcs if x[0] == "call" and ("source::CodeMap::" in x[1] or "query::State::" in x[1])}
+        closures = {x[1] for x in srcs if x[0] == "closure"}
+        for cl in closures:
+            cb = fb.body(cl)
+            if cb is not None:
+                makers |= {c.res for c in cb.calls() if "source::CodeMap::" in c.res or "query::State::" in c.res}
+        bad = {x for x in makers if x not in ok_src and not x.endswith("CodeMap::get")}
+        if bad:
+            rep.violation(R, "filemap-source|%s" % name, "State::%s returns a file that comes from %s instead of the current index" % (name, sorted(bad)), b.where())
+        else:
+            rep.ok(R, "State::%s returns the file the current index names (or the one it just registered)" % name)
+    rep.floor(R, "State file-map accessors examined", m, 3)
+
+
 def _ref_bases(b, local, depth=6):
     """locals a reference local may point to (through reborrows), including itself"""
     out = {local}
@@ -493,3 +535,4 @@ def run(fb, rep, tier, cfg):
     r7b(fb, rep)
     r7c(fb, rep)
     r7d(fb, rep)
+    r7e(fb, rep)
